@@ -1,7 +1,7 @@
 (* C20 — figures faithfully render the supplied data and prediction bands.
    Statements only (proofs: Proofs/Plots.v, axiom-free).  Sample values are integers (scaled dyadics); a
    bulk probability is the fraction a/b. *)
-From Coq Require Import ZArith List Bool String.
+From Coq Require Import ZArith List Bool String Permutation.
 From Chi Require Import Model.Plots Proofs.Plots.
 Import ListNotations.
 Open Scope Z_scope.
@@ -44,6 +44,36 @@ Theorem C20_dose_trace_exact : forall rows i x,
   In x (dose_trace rows i) <->
   exists r, In r rows /\ has_dose r = true /\ rid r = i /\ x = (rtime r, rdose r, rdur r).
 Proof. exact dose_trace_exact. Qed.
+
+(* (5) the polygon's y-vertices are exactly the upper limits of each unique time followed by the lower limits
+   in reverse; the unique times are the times of the samples table, each once; the samples of a time are
+   exactly the values of its rows *)
+Theorem C20_polygon_values : forall rows a b,
+  snd (polygon rows a b) =
+    map (fun t => upper_limit (samples_at rows t) a b) (times_of rows) ++
+    rev (map (fun t => lower_limit (samples_at rows t) a b) (times_of rows)).
+Proof. exact polygon_values. Qed.
+Theorem C20_times_exact : forall rows,
+  NoDup (times_of rows) /\ forall t, In t (times_of rows) <-> exists v, In (t, v) rows.
+Proof. exact times_exact. Qed.
+Theorem C20_samples_exact : forall rows t v, In v (samples_at rows t) <-> In (t, v) rows.
+Proof. exact samples_exact. Qed.
+
+(* (6) the band of a time does not depend on the order of the rows of the samples table (nor, for one time,
+   on the order of its samples) *)
+Theorem C20_limits_order_free : forall l l' a b, Permutation l l' ->
+  lower_limit l a b = lower_limit l' a b /\ upper_limit l a b = upper_limit l' a b.
+Proof. exact limits_perm. Qed.
+Theorem C20_band_row_order_free : forall rows rows' a b t, Permutation rows rows' ->
+  lower_limit (samples_at rows t) a b = lower_limit (samples_at rows' t) a b /\
+  upper_limit (samples_at rows t) a b = upper_limit (samples_at rows' t) a b.
+Proof. exact band_row_order. Qed.
+
+Example C20_order_nonvacuous :
+  Permutation [(0, 5); (0, 2); (1, 7); (0, 9)] [(0, 2); (0, 5); (1, 7); (0, 9)] /\
+  lower_limit (samples_at [(0, 5); (0, 2); (1, 7); (0, 9)] 0) 1 3 = Some 2 /\
+  upper_limit (samples_at [(0, 2); (0, 5); (1, 7); (0, 9)] 0) 1 3 = Some 5.
+Proof. split; [apply perm_swap|split; vm_compute; reflexivity]. Qed.
 
 Example C20_nonvacuous :
   lower_limit [1; 2; 2; 3; 5; 8; 8; 9] 1 2 = Some 1 /\ upper_limit [1; 2; 2; 3; 5; 8; 8; 9] 1 2 = Some 8 /\
